@@ -9,6 +9,7 @@ import XyzModel.CropFS
 import XyzModel.DrvNum
 import XyzModel.DrvScript
 import XyzModel.DrvData
+import XyzModel.DrvPlot
 /-! JSON-lines driver over the executable models (DESIGN.md Appendix B). One request per line, one reply per line. -/
 open Lean
 
@@ -425,6 +426,9 @@ def handle (j : Json) : Json :=
     | some r => r
     | none =>
     match DrvData.handleData o j with
+    | some r => r
+    | none =>
+    match DrvPlot.handlePlot o j with
     | some r => r
     | none => err s!"bad-op {o}"
 
